@@ -59,6 +59,27 @@ def root_param(o):
     return None
 
 
+def message_shape_violations(ctx, cfg="dev", only_codes=None):
+    """Error messages whose template does not start with an upper-hex offset `{pos:#X}: ` (what
+    ErrorStats::sort_error_msgs_by_mem_pos parses with ^0x[0-9A-F]+): list of (where, template)"""
+    f = ctx.facts(cfg)
+    cg = ctx.cg(cfg)
+    out = []
+    for s in emit.error_sites(f, cg, ctx.reachable(cfg)):
+        if s["variant"] != "Error":
+            continue
+        pl = s["payload"]
+        if root_param(pl) is not None or pl[0] == "proj" or "@Error" in show_origin(pl) or (pl[0] == "call" and pl[1] and pl[1].endswith("::recv")):
+            continue
+        fs = emit.site_format(f, s)
+        tm = (fs or {}).get("template") or ""
+        if only_codes and not any(c in tm for c in only_codes):
+            continue
+        if not (fs and re.match(r"\{(\w*):#X\}: ", tm) and fs["args"] and fs["args"][0][0] == "upper_hex"):
+            out.append((where(s["sp"]), tm[:70]))
+    return out
+
+
 def run(ctx, rep):
     f = ctx.facts()
     cg = ctx.cg()
